@@ -26,6 +26,10 @@ def spellings_for(v, rnd=None, allow_char=True):
     sp = ["dec", "hex", "hex4", "bin16"]
     if v <= 255:
         sp += ["hex2", "bin8"]
+    if v <= 0xFFF:
+        sp += ["hex3"]
+    if v <= 9999:
+        sp += ["dec0"]
     if allow_char and (48 <= v <= 57 or 65 <= v <= 90 or 97 <= v <= 122 or v in (33, 34, 35, 36, 37, 38, 39, 40, 41, 42, 43, 45, 46, 47, 58, 60, 61, 62, 63, 94)):
         sp.append("char")
     return sp
